@@ -45,6 +45,8 @@ def main(args):
         if "equivalent" in e:
             c["suite_341"] = "equivalent"
     want = [a for a in args if not a.startswith("--")]
+    if "--reverts" in args and not want:
+        cands = []
     results = []
     todo = []
     for c in cands:
@@ -63,6 +65,14 @@ def main(args):
                 continue
             m = json.load(open(meta))
             todo.append(("seeded", {"name": sid, "property": m["property"], "patch": os.path.join(sd, sid, "patch.diff"), "checks": m.get("caught_by")}))
+    if "--reverts" in args or any(a.startswith("FX-") for a in want):
+        # regression of a repaired defect: reverse the fix commit on the scratch copy; the check of the entry's property must flag it again
+        for k in json.load(open(os.path.join(ROOT, "known_findings.json"))):
+            if k.get("status") != "fixed":
+                continue
+            if want and k["id"] not in want:
+                continue
+            todo.append(("revert", {"name": k["id"], "property": k["property"], "commit": k["commit"], "checks": expect.get(k["id"], {}).get("checks")}))
     rc_all = 0
     for kind, c in todo:
         name = c["name"]
@@ -75,6 +85,12 @@ def main(args):
                     print(f"SELFTEST {name}: SKIP (pattern no longer present — the tree changed there)")
                     continue
                 open(p, "w").write(s.replace(c["old"], c["new"], 1))
+            elif kind == "revert":
+                diff = subprocess.run(["git", "-C", "/repo", "diff", c["commit"] + "^", c["commit"], "--", "htp"], stdout=subprocess.PIPE, text=True).stdout
+                r = subprocess.run(["patch", "-R", "-p1", "-d", d, "--no-backup-if-mismatch", "-F0"], input=diff, stdout=subprocess.PIPE, stderr=subprocess.STDOUT, text=True)
+                if r.returncode != 0:
+                    print(f"SELFTEST {name}: SKIP (the fix cannot be reversed on its own: later commits changed the same lines)")
+                    continue
             else:
                 r = subprocess.run(["patch", "-p1", "-d", d, "-i", c["patch"]], stdout=subprocess.PIPE, stderr=subprocess.STDOUT, text=True)
                 if r.returncode != 0:
